@@ -35,6 +35,22 @@ SeqStep ==
     /\ More /\ E.e = "Seq"
     /\ Judge(<< <<"ConversionPathIndependentAndReversible", E.bad = 0 /\ SeqOK>> >>)
     /\ ln' = ln + 1 /\ UNCHANGED <<tid, fin>>
+\* a history with a truncation of the measure to (cut[1], cut[2]) in the middle
+InCut(x) == E.cut[1] < x /\ x < E.cut[2]
+IsmT == SumSeq([k \in 1..Len(H.atoms_u) |-> IF Abs(H.atoms_u[k][1]) < H.one /\ InCut(H.atoms_u[k][1]) THEN H.atoms_u[k][1] * H.atoms_u[k][2] ELSE 0])
+IlgT == SumSeq([k \in 1..Len(H.atoms_u) |-> IF Abs(H.atoms_u[k][1]) > H.one /\ InCut(H.atoms_u[k][1]) THEN H.atoms_u[k][1] * H.atoms_u[k][2] ELSE 0])
+CanonicalT(aa, r) ==
+    CASE r = "ONEONE" -> aa [] r = "ZERO" -> aa + IsmT [] r = "CENTER" -> aa - IlgT
+      [] r = "TILDE" -> IF H.fv THEN aa + IsmT ELSE aa
+SeqTOK == /\ \A i \in 1..Len(E.pre) : Canonical(E.pre[i][2], E.pre[i][1]) = Canonical(H.a0, H.rep0)
+          /\ Canonical(E.at_cut[2], E.at_cut[1]) = Canonical(H.a0, H.rep0)
+          \* the truncation itself leaves representation and drift as they are
+          /\ E.post[1] = E.at_cut
+          /\ \A i \in 1..Len(E.post) : CanonicalT(E.post[i][2], E.post[i][1]) = CanonicalT(E.at_cut[2], E.at_cut[1])
+SeqTStep ==
+    /\ More /\ E.e = "SeqT"
+    /\ Judge(<< <<"ConversionPathIndependentAndReversible", E.bad = 0 /\ SeqTOK>> >>)
+    /\ ln' = ln + 1 /\ UNCHANGED <<tid, fin>>
 \* real measures: steps = <<representation, class of a, class of the canonical drift>> (equality classes, rel 1e-9)
 SeqQOK == /\ \A i, j \in 1..Len(E.steps) : E.steps[i][3] = E.steps[j][3]
           /\ \A i, j \in 1..Len(E.steps) : E.steps[i][1] = E.steps[j][1] => E.steps[i][2] = E.steps[j][2]
@@ -56,6 +72,6 @@ Finish ==
     /\ ~fin /\ ln = Len(T) + 1
     /\ IF bad = 0 THEN PrintT(<<"ACCEPT", Id>>) ELSE TRUE
     /\ fin' = TRUE /\ UNCHANGED <<tid, ln, bad>>
-TraceNext == SeqStep \/ SeqQStep \/ MartStep \/ RaiseStep \/ Finish
+TraceNext == SeqStep \/ SeqTStep \/ SeqQStep \/ MartStep \/ RaiseStep \/ Finish
 TraceSpec == TraceInit /\ [][TraceNext]_tvars
 =============================================================================
